@@ -1,0 +1,33 @@
+// -*- coding: utf-8 -*-
+// ------------------------------------------------------------------------------------------------
+// Verification hooks.  Only compiled with the `verif-hooks` cargo feature, which is off by
+// default.  Nothing in here changes the behaviour of the library: it re-exports public types that
+// live in private modules (so that an external checker can name their variants and fields), and
+// it keeps counters for an invariant monitor on syntax node identity.
+// ------------------------------------------------------------------------------------------------
+
+use std::sync::atomic::AtomicUsize;
+use std::sync::atomic::Ordering;
+
+pub use crate::checker::CheckError;
+pub use crate::execution::error::Context;
+pub use crate::execution::error::StatementContext;
+pub use crate::parser::Range;
+
+/// Number of calls to `Graph::add_syntax_node`.
+pub static SYNTAX_NODES_REGISTERED: AtomicUsize = AtomicUsize::new(0);
+/// Number of calls to `Graph::add_syntax_node` where the (truncated) id of the incoming node was
+/// already taken by a *different* syntax node.
+pub static SYNTAX_NODE_ID_COLLISIONS: AtomicUsize = AtomicUsize::new(0);
+
+pub(crate) fn observe_syntax_node(
+    stored: Option<&tree_sitter::Node>,
+    incoming: &tree_sitter::Node,
+) {
+    SYNTAX_NODES_REGISTERED.fetch_add(1, Ordering::Relaxed);
+    if let Some(stored) = stored {
+        if stored != incoming {
+            SYNTAX_NODE_ID_COLLISIONS.fetch_add(1, Ordering::Relaxed);
+        }
+    }
+}
